@@ -43,6 +43,17 @@ def rfloat(rng):
 
 def cases(rng, tier):
     n = 500 if tier == 'quick' else 10000
+    # integers of thousands of digits, both signs, not round numbers: the printed form is the decimal numeral and reads back
+    # (seeded change S18j split numbers ≥ 2^4096 with divmod and forgot the sign). Built by arithmetic: the literal would
+    # be as long as the number.
+    for base, ex, off in [(7, 1500, 3), (2, 4095, 1), (2, 4096, -1), (3, 3000, 2), (2, 5000, 1), (10, 1300, 7), (7, 2500, 11)]:
+        for sgn in (1, -1):
+            k = sgn * (base ** ex + off)
+            e = bi('ㄱ', lit(sgn), bi('ㄷ', bi('ㅅ', lit(base), lit(ex)), lit(off)))
+            yield Case(program=render(bi('ㅁㅈ', e)), tag='huge-int-print', monitor='c18_expect', data="'" + str(k) + "'")
+            yield Case(program=render(e), tag='huge-int-top', monitor='c18_expect', data=str(k))
+            yield Case(program=render(bi('ㄴ', bi('ㅈㅅ', bi('ㅁㅈ', e)), e)), tag='huge-int-readback', monitor='c18_expect', data='True')
+            yield Case(program=render(bi('ㅁㄹ', e, lit(1))), tag='huge-int-in-list', monitor='c18_expect', data=f"[{k}, 1]")
     for _ in range(n):
         # integers print and read back
         k = rng.choice([1, -1]) * rng.randint(0, 10 ** rng.choice([1, 5, 18, 40, 300]))
